@@ -209,12 +209,16 @@ def dedupItems : List (Nat × Src) → List (Nat × Src)
   | [] => []
   | a :: l => a :: (dedupItems l).filter (fun x => x != a)
 
+/-- `chan_set` on one CPU channel. -/
+def setOne (cs : List Cpu) (e : Nat × Src × Value) : List Cpu :=
+  match cs[e.1]? with
+  | some c => cs.set e.1 (c.set e.2)
+  | none => cs
+
 /-- One `bay_propagate` of the whole breakdown after the listed `chan_set`s. -/
 def stepSys (k : Consts) (qs : List Int → List Int) (s : Sys) (sets : List (Nat × Src × Value)) :
     Sys × List (Nat × Int) :=
-  let cpus := sets.foldl (fun cs e => match cs[e.1]? with
-    | some c => cs.set e.1 (c.set e.2)
-    | none => cs) s.cpus
+  let cpus := sets.foldl setOne s.cpus
   let order := (dedupItems (sets.map (fun e => (e.1, e.2.1)))).map (fun e => (e.1, e.2.ch))
   propagateSys k qs (5 * s.cpus.length) order order ⟨cpus, s.sort⟩ []
 
